@@ -35,3 +35,18 @@ PROPS["C01"] = {
     "outside": "",
     "assumptions": [],
 }
+
+DEC_FUNCS = ["decode::decode_internal", "util::zag_i64", "util::zag_i32", "util::decode_variable", "decode::decode_len", "util::safe_len", "types::Value::validate_internal"]
+DEC = [
+    H("dec::null_bool", functions=DEC_FUNCS, bounds="all byte strings of length <= 2"),
+    H("dec::long_full", functions=DEC_FUNCS, bounds="all byte strings of length <= 10 (full varint width)"),
+    H("dec::int_full", functions=DEC_FUNCS, bounds="all byte strings of length <= 10"),
+    H("dec::long_kinds", functions=DEC_FUNCS, bounds="7 long-backed logical kinds x all byte strings of length <= 3"),
+    H("dec::int_kinds", functions=DEC_FUNCS, bounds="date/time-millis x all byte strings of length <= 3"),
+    H("dec::float_double", functions=DEC_FUNCS, bounds="all byte strings of length <= 9"),
+    H("dec::bytes_", functions=DEC_FUNCS, bounds="all byte strings of length <= 6, allocation limit 4"),
+    H("dec::string_", functions=DEC_FUNCS, bounds="all byte strings of length <= 6, allocation limit 4"),
+    H("dec::fixed_", functions=DEC_FUNCS, bounds="fixed size 0..=4 x all byte strings of length <= 5"),
+    H("dec::enum_", functions=DEC_FUNCS, bounds="3 symbols x all byte strings of length <= 10"),
+]
+PROPS["DEC"] = {"harnesses": DEC, "outside": "", "assumptions": []}
